@@ -9,34 +9,6 @@ import FlacModel.Props.C14
 namespace Flac.C01
 open Flac Gen
 
-theorem decodeFrame_check (p : Profile) (si : Option SInfo) (bytes : List Nat) (d : Decoded)
-    (h : decodeFrame p si bytes = .ok d) : checkStreaminfo si d.hdr = .ok () := by
-  unfold decodeFrame at h
-  cases g1 : readHeaderFields si (bytesToBits bytes) with
-  | error e => rw [g1] at h; cases h
-  | ok v1 =>
-    obtain ⟨hd, rest⟩ := v1
-    rw [g1] at h; dsimp only at h
-    cases g2 : checkStreaminfo si hd with
-    | error e => rw [g2] at h; cases h
-    | ok u =>
-      cases u
-      rw [g2] at h; dsimp only at h
-      split at h
-      · cases h
-      · split at h
-        · cases h
-        · split at h
-          · cases h
-          · split at h
-            · cases h
-            · split at h
-              · cases h
-              · split at h
-                · cases h
-                · simp only [Except.ok.injEq] at h
-                  rw [← h]; exact g2
-
 /-- block sizes a stream of the given remaining length may consist of: every block but the last is longer than 14
     samples (the decoder's short-block rule), none is empty, and they add up to the remainder -/
 def blocksOk : List Nat → Nat → Prop
